@@ -1,6 +1,6 @@
 import PhyModel.Proofs.StoreCache_Map
 /-! C06, `Tree.relabel_nodes` (names only), `Tree.update` (full recomputation), the empty tree. -/
-namespace PhyModel.Store
+namespace PhyModel.Store.C06
 open PhyModel
 
 /-- **C06, `Tree(grid_size)`** -/
@@ -23,4 +23,4 @@ theorem cacheOK_update (dt : Data) (s : Store) (hc : CacheOK dt s) : CacheOK dt 
 theorem cacheOK_touch (dt : Data) (s : Store) (l : List Int) (hc : CacheOK dt s) :
     CacheOK dt (s.touch l) := hc
 
-end PhyModel.Store
+end PhyModel.Store.C06
